@@ -214,3 +214,65 @@ ENGINES["ps"] = dict(path="coq/theories/Alg/{PS,Sigma,BLSVerify}.v + coq/theorie
                      props=["C08", "C09"],
                      kind="MathComp model of the PS threshold blind signature and of BLS verification in an ideal-group model; Go harnesses "
                           "driving the real mpc/ps and mpc/bls packages (each with its own pinned mathlib) through verif hooks with seeded randomness")
+
+# ---------------------------------------------------------------------------------------------- lockset engine (C20)
+from checks import lockset as lockset_engine
+REGISTRY["C20"] = lockset_engine.run
+META["C20"] = dict(engine="lockset",
+    note="Trusted: Coq kernel + vm_compute, no axioms (Print Assumptions: closed under the global context). PARTIAL by construction: data "
+         "races live in the Go memory model; what is proved is the lock discipline. The link between the Go source and the access table "
+         "is the translator tools/gen_lockset.py + tools/lockset (go/ast + go/types, standard library): syntactic lock tracking per "
+         "function with branch merging, propagation of held locks along calls on the same receiver, closures / go / defer starting "
+         "empty, and ten named judgements (fields as locations, ownership of sub-objects, atomics / sync.Map / sync.Cond as pseudo-locks, "
+         "fresh locals and Init and sync.Once bodies as set-up, one session goroutine per mpc instance, rbc.Receiver and the "
+         "synchronisers entered only through the threadSafeRBC / threadSafeSync wrappers that Scheme.setup installs - re-checked "
+         "syntactically on every run). The translator refuses (translator_ok = false) what it does not understand. It is cross-examined "
+         "on every run by the Go race detector on full-stack runs; a report that the table calls protected is a broken correspondence.",
+    text="Proved in Coq for ALL well-formed traces of lock / unlock / read-lock / read-unlock / read / write / go events over any number "
+         "of threads, objects and locks (happens-before = program order + go statement + Unlock->Lock, Unlock->RLock, RUnlock->Lock): if "
+         "every access is an instance of an entry of an access table that satisfies the decidable discipline (per field: no write "
+         "outside set-up, or ONE lock held at all its accesses, exclusively at the writes) and set-up accesses are ordered with the "
+         "conflicting ones, the trace has no data race (lockset_sound; non-vacuity examples incl. a racy trace). The table of the current "
+         "source (455 entries, 123 fields of the structs of threshold, mpc/bls, mpc/ps, msg, disc, rbc) is regenerated on every run and "
+         "checked by vm_compute, minus the sites of the known findings; the full table is refuted exactly when known findings exist. "
+         "Tie/search: KeyGen + Sign among three real parties (threshold + rbc + disc + msg + mpc/bls) under `go build -race`, one "
+         "goroutine per message, honest / duplicated+replayed / forged early and out-of-phase traffic of one participant / delayed Init / "
+         "two Sign sessions at once / loud and silent mode / SetStoredData during Sign; every detector report is mapped to table "
+         "entries by file:line and must be an unprotected pair.")
+ENGINES["lockset"] = dict(path="coq/theories/Lockset/{Trace,Discipline,Examples}.v + coq/theories/Gen/Lockset{,Known}.v (generated) + "
+                               "tools/gen_lockset.py + tools/lockset + harness/race + checks/lockset.py",
+                          props=["C20"],
+                          kind="generic lockset theorem over traces with a happens-before relation; access table regenerated from the Go "
+                               "source by a go/ast+go/types translator; Go race detector on full-stack runs as cross-examination")
+
+# ---------------------------------------------------------------------------------------------- disc engine (C07)
+from checks import disc as disc_engine
+REGISTRY["C07"] = disc_engine.run
+META["C07"] = dict(engine="disc",
+    note="Trusted: Coq kernel + vm_compute, no axioms (Print Assumptions: closed under the global context for all fourteen theorems). "
+         "Premises in the statements: authenticated links (a message an honest member accepts as coming from an honest member was emitted "
+         "by it), the tag function injective in (topic, member) (Section variable of Disc/Wire.v; HMAC-SHA256 is not modelled, the harness "
+         "computes tags with crypto/hmac), one configured membership and expected count at all honest members. Real time is not modelled: "
+         "the deadline is an event; the liveness theorem is stated for a fair FIFO schedule that the deadline does not cut short "
+         "(_partial), complemented by a theorem for every interleaving that the deadline is the only way an exact honest run can fail. "
+         "sync.Map.Range is modelled by its documented contract (per-key Visit events that HandleMessage events may interleave). The "
+         "model of disc.Member is hand-written and tied to disc/discovery.go on every run by differential execution; goroutine "
+         "scheduling of the whole runs is exercised, not replayed.",
+    text="Proved in Coq for every membership, expected count, set of honest members, identifier values, every Byzantine behaviour and "
+         "every interleaving (inductive invariant over arbitrary admissible event lists): validity of the list handed to the "
+         "continuation (strictly sorted, exact size, contains the member, only configured members whose authenticated announcement was "
+         "handled), agreement between honest members one of which is in the other's list, continuation at most once and never together "
+         "with or after an error / the end of the context, no continuation with too few announcers, the deadline as the only failure of an "
+         "exact honest run, completion of every member under a fair schedule for every list of >= 2 members, and the binding of tags to "
+         "(topic, member) for any injective tag function. Two upstream defects refuted with witnesses and repaired: intersectedView "
+         "computed the own view in a second, non-atomic pass (agreement broken by two Byzantine members exploiting a HandleMessage landing "
+         "between the passes; reproduced on real goroutines), and returned the last announced list instead of the own view (a member "
+         "expecting only itself never completed; expected 0 continued with an empty list). Tie: ~700 operation lists per run on real "
+         "Members -- HandleMessage with valid / lying / foreign-tag / other-topic / replayed / malformed bytes, intersectedView with a "
+         "HandleMessage injected between its passes, a real Synchronize goroutine brought to rest after every message and then "
+         "cancelled -- every observable compared with the model; whole runs of 2..6 members with scripted Byzantine members over a "
+         "seeded router under validity / agreement / exclusivity / liveness / too-few monitors.")
+ENGINES["disc"] = dict(path="coq/theories/Disc + coq/theories/Corr/DiscCorr.v + harness/core/disc*.go + checks/disc.py", props=["C07"],
+                       kind="Coq state machine of disc.Member (HandleMessage, the Synchronize loop cut at its atomic steps, intersectedView as "
+                            "interleavable Range events) in a global system with Byzantine members; Go harness driving real Members step by "
+                            "step, a real Synchronize goroutine under quiescence control, and whole concurrent runs")
